@@ -56,6 +56,9 @@ FILES = {
     "OSq.Proofs.Bands4": {"C01": None},
     "OSq.Proofs.Bands5": {"C01": None, "C10": ["OSq.Bands.cnotDecompose_ok_shortcut"]},
     "OSq.Proofs.Kron": {"C08": None},
+    "OSq.Proofs.PipelineBand": {"C05": None},
+    "OSq.Proofs.PipelineBand2": {"C05": None},
+    "OSq.Proofs.PipelineBand3": {"C05": None},
     "OSq.Proofs.DecomposeBand": {"C06": None, "C01": ["OSq.gateOp_unitary", "OSq.checkGateReplacement_band_op"]},
     "OSq.Proofs.DecomposeBand2": {"C06": None, "C01": ["OSq.decompose_ok_band", "OSq.decomposeBuiltin_ok_band"], "C05": ["OSq.decompose_ok_band", "OSq.replace_ok_band", "OSq.decompose_fail_band"]},
     "OSq.Proofs.DecomposeBand3": {"C06": None},
